@@ -35,6 +35,7 @@ type lockLayout struct {
 }
 
 type lockFormat struct {
+	keyed   bool // sections are maps keyed by package name
 	mk      func() filesystem.Extractor
 	path    string
 	codec   string // json | toml
@@ -90,7 +91,7 @@ var lockFormats = map[string]lockFormat{
 				return map[string]any{"name": r.name, "version": r.version}
 			})}, l)
 		}},
-	"pipfilelock": {mk: pipfilelock.New, path: "Pipfile.lock", codec: "json",
+	"pipfilelock": {keyed: true, mk: pipfilelock.New, path: "Pipfile.lock", codec: "json",
 		name: func(b byte) string { return "py" + string([]byte{b}) }, version: func(b byte) string { return "1." + string([]byte{b}) },
 		tree: func(rs []record, l lockLayout) map[string]any {
 			def, dev := map[string]any{}, map[string]any{}
@@ -104,7 +105,7 @@ var lockFormats = map[string]lockFormat{
 			}
 			return extra(map[string]any{"default": def, "develop": dev}, l)
 		}},
-	"packageslockjson": {mk: packageslockjson.NewDefault, path: "packages.lock.json", codec: "json",
+	"packageslockjson": {keyed: true, mk: packageslockjson.NewDefault, path: "packages.lock.json", codec: "json",
 		name: func(b byte) string { return "Nu." + string([]byte{b}) }, version: func(b byte) string { return "1.0." + string([]byte{b}) },
 		tree: func(rs []record, l lockLayout) map[string]any {
 			fw1, fw2 := map[string]any{}, map[string]any{}
@@ -118,7 +119,7 @@ var lockFormats = map[string]lockFormat{
 			}
 			return extra(map[string]any{"version": 1, "dependencies": map[string]any{"net6.0": fw1, "net8.0": fw2}}, l)
 		}},
-	"renvlock": {mk: renvlock.New, path: "renv.lock", codec: "json",
+	"renvlock": {keyed: true, mk: renvlock.New, path: "renv.lock", codec: "json",
 		name: func(b byte) string { return "r" + string([]byte{b}) }, version: func(b byte) string { return "1." + string([]byte{b}) },
 		tree: func(rs []record, l lockLayout) map[string]any {
 			pk := map[string]any{}
@@ -160,7 +161,7 @@ var lockFormats = map[string]lockFormat{
 		}},
 	// package-lock.json v1: nested dependencies (the second section is nested under the first record,
 	// which is a local file: dependency when the layout asks for extra keys)
-	"packagelockjson-v1": {mk: packagelockjson.NewDefault, path: "package-lock.json", codec: "json",
+	"packagelockjson-v1": {keyed: true, mk: packagelockjson.NewDefault, path: "package-lock.json", codec: "json",
 		name: func(b byte) string { return "js" + string([]byte{b}) }, version: func(b byte) string { return "1.0." + string([]byte{b}) },
 		tree: func(rs []record, l lockLayout) map[string]any {
 			deps := map[string]any{}
@@ -181,7 +182,7 @@ var lockFormats = map[string]lockFormat{
 			}
 			return extra(map[string]any{"lockfileVersion": 1, "dependencies": deps}, l)
 		}},
-	"packagelockjson-v2": {mk: packagelockjson.NewDefault, path: "package-lock.json", codec: "json",
+	"packagelockjson-v2": {keyed: true, mk: packagelockjson.NewDefault, path: "package-lock.json", codec: "json",
 		name: func(b byte) string { return "js" + string([]byte{b}) }, version: func(b byte) string { return "1.0." + string([]byte{b}) },
 		tree: func(rs []record, l lockLayout) map[string]any {
 			pk := map[string]any{"": map[string]any{"name": "root", "version": "0.0.0"}}
@@ -222,6 +223,16 @@ func VerifLockfile() {
 	}
 	n := verifrt.Param("records")
 	l := lockLayout{extraKeys: verifrt.Choice("unrelated-keys", 2) == 1, split: verifrt.Choice("second-section", n+1)}
+	// two of the N distinct packages may share the name and differ in the version (two versions of
+	// a crate, one id resolved differently for two target frameworks, a nested node_modules copy)
+	sameName := n >= 2 && verifrt.Choice("same-name-two-versions", 2) == 1
+	if sameName && f.keyed {
+		// formats that key a section by package name need the two copies in different sections
+		verifrt.Assume(l.split == n-1)
+		if fname == "renvlock" {
+			verifrt.Assume(false)
+		}
+	}
 	var rs []record
 	for i := 0; i < n; i++ {
 		nb := verifrt.Byte("name")
@@ -229,10 +240,17 @@ func VerifLockfile() {
 		verifrt.Assume(verifrt.Or(verifrt.And(nb >= 'a', nb <= 'z'), verifrt.And(nb >= '0', nb <= '9')))
 		verifrt.Assume(verifrt.And(vb >= '0', vb <= '9'))
 		r := record{name: f.name(nb), version: f.version(vb), installed: true}
-		for _, o := range rs {
+		for k, o := range rs {
+			if sameName && k == 0 && i == 1 {
+				verifrt.Assume(verifrt.And(verifrt.StrEq(o.name, r.name), verifrt.Not(verifrt.StrEq(o.version, r.version))))
+				continue
+			}
 			verifrt.Assume(verifrt.Not(verifrt.StrEq(o.name, r.name))) // N distinct packages
 		}
 		rs = append(rs, r)
+	}
+	if sameName {
+		verifrt.Reach("same-name-two-versions")
 	}
 	data := verifrt.EncodeTree("doc", f.tree(rs, l), f.codec)
 	e := f.mk()
